@@ -95,7 +95,7 @@ class Cycle:
         if shipped is not None: b[root_s.P.shipped.decl().name()] = shipped
         if hop_ids is not None:
             for h, t in zip(root_s.P.hop, hop_ids): b[h.decl().name()] = t
-        fr, ok_r, rid, post_r, _ = root_s.inst(tag, b); f.append(fr)
+        fr, ok_r, rid, post_r, older_r = root_s.inst(tag, b); f.append(fr)
         self.shipped = shipped if shipped is not None else z3.Const(f'{root_s.P.shipped.decl().name()}@{tag}', root_s.P.shipped.sort())
         self.hops = hop_ids if hop_ids is not None else [z3.Const(f'{h.decl().name()}@{tag}', h.sort()) for h in root_s.P.hop]
         # ---- load_timestamp
@@ -119,6 +119,7 @@ class Cycle:
         self.post = post_g; self.pre = pre
         self.post_root = post_r
         self.older = z3.Or(older_t, older_s, older_g)
+        self.older_any = z3.Or(older_r, older_t, older_s, older_g)
         self.older_ts, self.older_sn, self.older_tg = older_t, older_s, older_g
         def pv(S, x): return z3.Const(f'{x.decl().name()}@{tag}', x.sort())
         self.chunks = [tuple(pv(root_s, x) for x in ch) for hc in root_s.P.hop_chunks for ch in hc] + \
